@@ -390,7 +390,7 @@ func runCheck(env *run.Env, c *check) int {
 	start := time.Now()
 	thor := env.Tier == "thorough"
 	logf := func(format string, a ...any) {
-		fmt.Fprintf(os.Stderr, "[%s %s seed=%d] "+format+"\n", append([]any{c.id, env.Tier, env.Seed}, a...)...)
+		fmt.Fprintf(os.Stderr, "[%s %s seed=%d +%.0fs] "+format+"\n", append([]any{c.id, env.Tier, env.Seed, time.Since(start).Seconds()}, a...)...)
 	}
 
 	bin, err := env.BuildExec("vexec", "", false)
@@ -449,39 +449,49 @@ func runCheck(env *run.Env, c *check) int {
 	for i := 0; i < len(progs); i += per {
 		batches = append(batches, progs[i:min(i+per, len(progs))])
 	}
-	// -race build (pure Go kernels so that the detector sees every access): a race report is a C18 violation
+	// -race build (pure Go kernels so that the detector sees every access): a race report is a C18 violation.
+	// Runs concurrently with the trace validation below; the quick tier races only the first batches.
 	raceBad := map[int]string{}
+	var raceWG sync.WaitGroup
 	if c.race {
-		rb, err := env.BuildExec("vexec_race", "decimal_pure_go", true)
-		if err != nil {
-			die("%v", err)
-		}
-		var rmu sync.Mutex
-		var rwg sync.WaitGroup
-		rsem := make(chan struct{}, 8)
-		for i := range batches {
-			rwg.Add(1)
-			go func(i int) {
-				defer rwg.Done()
-				rsem <- struct{}{}
-				defer func() { <-rsem }()
-				pf := filepath.Join(env.Scratch, fmt.Sprintf("r%d.prog.ndjson", i))
-				if err := writePrograms(pf, batches[i]); err != nil {
-					return
-				}
-				out, code := env.ExecRace(rb, pf, filepath.Join(env.Scratch, fmt.Sprintf("r%d.ev.ndjson", i)), execTimeout(env)*3)
-				if code == 66 {
-					rmu.Lock()
-					raceBad[i] = out
-					rmu.Unlock()
-				} else if code != 0 {
-					rmu.Lock()
-					raceBad[i] = "exit " + fmt.Sprint(code) + ": " + out
-					rmu.Unlock()
-				}
-			}(i)
-		}
-		rwg.Wait()
+		raceWG.Add(1)
+		go func() {
+			defer raceWG.Done()
+			rb, err := env.BuildExec("vexec_race", "decimal_pure_go", true)
+			if err != nil {
+				die("%v", err)
+			}
+			nb := len(batches)
+			if !thor && nb > 4 {
+				nb = 4
+			}
+			var rmu sync.Mutex
+			var rwg sync.WaitGroup
+			rsem := make(chan struct{}, 4)
+			for i := 0; i < nb; i++ {
+				rwg.Add(1)
+				go func(i int) {
+					defer rwg.Done()
+					rsem <- struct{}{}
+					defer func() { <-rsem }()
+					pf := filepath.Join(env.Scratch, fmt.Sprintf("r%d.prog.ndjson", i))
+					if err := writePrograms(pf, batches[i]); err != nil {
+						return
+					}
+					out, code := env.ExecRace(rb, pf, filepath.Join(env.Scratch, fmt.Sprintf("r%d.ev.ndjson", i)), execTimeout(env)*3)
+					if code == 66 {
+						rmu.Lock()
+						raceBad[i] = out
+						rmu.Unlock()
+					} else if code != 0 {
+						rmu.Lock()
+						raceBad[i] = "exit " + fmt.Sprint(code) + ": " + out
+						rmu.Unlock()
+					}
+				}(i)
+			}
+			rwg.Wait()
+		}()
 	}
 	results := make([]*batchResult, len(batches))
 	sem := make(chan struct{}, 8)
@@ -497,6 +507,9 @@ func runCheck(env *run.Env, c *check) int {
 	}
 	wg.Wait()
 
+	logf("trace validation done")
+	raceWG.Wait()
+	logf("race runs done")
 	findings := loadFindings(env.Home)
 	cov := map[string]int64{}
 	var events, tstates int64
